@@ -190,7 +190,12 @@ impl FmtAttribute {
             Some(parsing::Argument::Identifier(name)) => (self.args.len() == 1)
                 .then(|| self.args.first())
                 .flatten()
-                .filter(|a| a.alias.as_ref().map(|a| a.0 == name).unwrap_or_default())
+                .filter(|a| {
+                    a.alias
+                        .as_ref()
+                        .map(|a| a.0.unraw() == name)
+                        .unwrap_or_default()
+                })
                 .map(|a| a.expr.clone()),
         }?;
 
@@ -245,7 +250,7 @@ impl FmtAttribute {
                 Parameter::Named(name) => self
                     .args
                     .iter()
-                    .find_map(|a| (a.alias()? == &name).then_some(&a.expr))
+                    .find_map(|a| (a.alias()?.unraw() == name).then_some(&a.expr))
                     .map_or(Some(name), |expr| expr.ident().map(ToString::to_string))?,
                 Parameter::Positional(i) => {
                     self.args.iter().nth(i)?.expr.ident()?.to_string()
@@ -295,7 +300,7 @@ impl FmtAttribute {
                 Parameter::Named(name) => self
                     .args
                     .iter()
-                    .find_map(|a| (a.alias()? == name).then_some(&a.expr))
+                    .find_map(|a| (a.alias()?.unraw() == *name).then_some(&a.expr))
                     .map_or(Some(name.clone()), |expr| {
                         expr.ident().map(ToString::to_string)
                     }),
@@ -333,7 +338,9 @@ impl FmtAttribute {
         fields.fmt_args_idents().filter_map(move |field_name| {
             (used_args.iter().any(|arg| field_name.unraw() == arg)
                 && !self.args.iter().any(|arg| {
-                    arg.alias.as_ref().is_some_and(|(n, _)| n == &field_name)
+                    arg.alias
+                        .as_ref()
+                        .is_some_and(|(n, _)| n.unraw() == field_name.unraw())
                 }))
             .then(|| quote! { #field_name = *#field_name })
         })
@@ -408,12 +415,15 @@ impl FmtArgument {
 impl Parse for FmtArgument {
     fn parse(input: ParseStream) -> syn::Result<Self> {
         Ok(Self {
-            alias: (input.peek(syn::Ident)
+            // Any identifier names a parameter for `format_args!`, keywords included (`type = ..`).
+            alias: (input.peek(syn::Ident::peek_any)
                 && input.peek2(token::Eq)
                 // `ident == expr` is a comparison, not a named parameter.
                 && !input.peek2(token::EqEq))
-            .then(|| Ok::<_, syn::Error>((input.parse()?, input.parse()?)))
-                .transpose()?,
+            .then(|| {
+                Ok::<_, syn::Error>((syn::Ident::parse_any(input)?, input.parse()?))
+            })
+            .transpose()?,
             expr: input.parse()?,
         })
     }
